@@ -127,7 +127,11 @@ def rotate_eigenvectors(eigvals, eigvecs, dD):
     """
     rot_eigvecs = np.zeros_like(eigvecs)
     eigvals_dD = np.zeros_like(eigvals)
-    for deg in degenerate_sets(eigvals):
+    # Degeneracy is judged on frequencies (square roots of eigenvalues). With
+    # the tolerance applied to the eigenvalues themselves, all low-frequency
+    # modes (eigenvalue < tolerance) were lumped into one "degenerate" set.
+    freqs = np.sqrt(np.abs(eigvals)) * np.sign(eigvals)
+    for deg in degenerate_sets(freqs):
         dD_part = np.dot(eigvecs[:, deg].T.conj(), np.dot(dD, eigvecs[:, deg]))
         eigvals_dD[deg], eigvecs_dD = np.linalg.eigh(dD_part)
         rot_eigvecs[:, deg] = np.dot(eigvecs[:, deg], eigvecs_dD)
